@@ -177,8 +177,33 @@ def r13_3(ctx):
     ok = 'if self.__hash is None' in src(hh.node) and 'return self.__hash' in src(hh.node)
     ctx.decide('R13.3', hh.qual, 'hash computed once and cached', ok, hh.node)
     ad = ctx.prog.func(VF + '.VForm.add')
-    ok = 'if self.__hash is not None' in src(ad.node) and isinstance([s for s in ad.node.body if isinstance(s, ast.If)][0].body[0], ast.Raise)
-    ctx.decide('R13.3', ad.qual, 'add() refuses to modify a hashed form', ok, ad.node, 'a form cannot change after its key was taken')
+    # the memo field of hash(): assigned under `if self.<M> is None`
+    memo = None
+    for iff in [n for n in own_nodes(hh.node) if isinstance(n, ast.If)]:
+        t = iff.test
+        if isinstance(t, ast.Compare) and len(t.ops) == 1 and isinstance(t.ops[0], ast.Is) and isinstance(t.comparators[0], ast.Constant) \
+                and t.comparators[0].value is None and isinstance(t.left, ast.Attribute) and src(t.left.value) == 'self':
+            memo = t.left.attr
+    guards_raise = [n for n in own_nodes(ad.node) if isinstance(n, ast.If) and any(isinstance(b, ast.Raise) for b in n.body)]
+    if memo is None:
+        ctx.undecided('R13.3', ad.qual, 'add() refuses to modify a hashed form', ad.node, 'memo field of hash() not recognised')
+    elif not guards_raise:
+        ctx.violated('R13.3', ad.qual, 'add() refuses to modify a hashed form', ad.node,
+                     'hash() memoises the key in self.%s but add() never refuses: a term added after the key was taken is not part of it' % memo)
+    else:
+        def frozen_when_hashed(test):
+            # true whenever self.<memo> is not None: the literal itself or a disjunction containing it
+            if isinstance(test, ast.BoolOp) and isinstance(test.op, ast.Or):
+                return any(frozen_when_hashed(v) for v in test.values)
+            return isinstance(test, ast.Compare) and len(test.ops) == 1 and isinstance(test.ops[0], ast.IsNot) \
+                and isinstance(test.comparators[0], ast.Constant) and test.comparators[0].value is None \
+                and isinstance(test.left, ast.Attribute) and src(test.left.value) == 'self' and test.left.attr == memo
+        okg = any(frozen_when_hashed(g.test) for g in guards_raise)
+        other = sorted({n.attr for g in guards_raise for n in ast.walk(g.test) if isinstance(n, ast.Attribute) and src(n.value) == 'self'} - {memo})
+        ctx.decide('R13.3', ad.qual, 'add() refuses to modify a hashed form', True if okg else (False if other else None), guards_raise[0],
+                   'a form cannot change after its key was taken' if okg else
+                   'add() refuses only under `%s`, which says nothing about the memoised key self.%s: vf.hash(); vf.add(term); compile_vform(vf) '
+                   'looks up the key of the form WITHOUT the last term' % (src(guards_raise[0].test), memo), definite=True)
 
 
 def r13_4(ctx):
